@@ -58,7 +58,11 @@ func verifSymStyle(tag string, colours bool) Style {
 			st.Background = c
 		case 2:
 			st.UnderlineColor = c
-			st.UnderlineStyle = UnderlineSingle
+			// an underline colour with or without an underline (the colour is pen state of
+			// its own: it must round-trip and be reset at the end either way)
+			if zzverif.Bool(tag + ".underlined") {
+				st.UnderlineStyle = UnderlineSingle
+			}
 		}
 	}
 	return st
